@@ -128,5 +128,6 @@ type Result struct {
 	MapRanges   int              `json:"map_ranges"`
 	ClockJumps  int              `json:"clock_jumps"`
 	FairKicks   int              `json:"fair_kicks"`
+	SimNs       int64            `json:"sim_ns"`         // fake-clock time that passed inside the bubble
 	Dump        string           `json:"dump,omitempty"` // goroutine dump on deadlock / hang
 }
